@@ -40,4 +40,6 @@ MUTANTS = [
     m("c20-twin-cmp-safe-log-lt", None, "            return self.log_val < other.log_val\n        return self.val < other", "            return self.log_val < other.log_val\n        return self.log_val < (log(other) if other > 0 else -inf)", twin=True),
     m("c20-twin-cmp-log-space", None, "            return self.log_val < other.log_val\n        return self.val < other", "            return self.log_val < other.log_val\n        return other > 0 and self.log_val < log(other)", twin=True),
     m("c20-twin-cmp-swapped", None, "            return self.log_val >= other.log_val\n        return self.val >= other", "            return other.log_val <= self.log_val\n        return other <= self.val", twin=True),
+    m("c20-lse-no-max-factoring", "R1", "    if val1 == -inf and val2 == -inf:\n        return -inf\n    if val1 > val2:\n        return val1 + log1p_exp(val2 - val1)\n    return val2 + log1p_exp(val1 - val2)", "    if val1 == -inf:\n        return val2\n    return val1 + log1p_exp(val2 - val1)", key="correction-argument-positive"),
+    m("c20-twin-lse-ge", None, "    if val1 > val2:\n        return val1 + log1p_exp(val2 - val1)\n    return val2 + log1p_exp(val1 - val2)", "    if val1 >= val2:\n        return val1 + log1p_exp(val2 - val1)\n    return val2 + log1p_exp(val1 - val2)", twin=True),
 ]
